@@ -79,6 +79,9 @@ def check_grid(ctx, reg, rc, tags, tiling, catalog=None, threshold=None, zoom=No
         ctx.violate("cells do not cover the globe exactly once (dyadic measure != 1)", rc, observed=str(measure), expected="1",
                     tags=dict(tags, clause="cover"))
         return False
+    bb = reg.get_bbox()
+    if tuple(map(float, bb)) != (float(bounds[:, 0].min()), float(bounds[:, 2].max()), float(bounds[:, 1].min()), float(bounds[:, 3].max())):
+        ctx.violate("get_bbox is not the bounding box of the cells (west, east, south, north)", rc, observed=tuple(map(float, bb)), tags=dict(tags, clause="bbox"))
     if len(qk) != bounds.shape[0] or len(reg.polygons) != len(qk):
         ctx.violate("quadkeys / bounds / polygons have different lengths", rc, observed=[len(qk), bounds.shape, len(reg.polygons)], tags=tags)
         return False
